@@ -255,6 +255,17 @@ class Controller:
         self.log("exec_begin", n=max_concurrency, s=nodes, b=(self.sched_thread == self.invoker))
         self.graph_cp = {i: graph.compound_priority[i] for i in graph.nodes}
 
+    def on_pool_exit(self, graph):
+        """The scheduler has left its loop and is about to join the worker pool: whatever is still gated runs to its
+        end now, as it would without the harness (on the unchanged tree nothing is in flight at this point)."""
+        if not self.mine(graph):
+            return
+        with self.cv:
+            pending = [i for i in self.at_gate if i not in self.released]
+        if pending:
+            self.log("pool_exit", s=[self.ix(i) for i in pending])
+        self.release_everything()
+
     def on_exec_end(self, graph, results):
         if self.mine(graph):
             self.log("exec_end")
@@ -367,7 +378,7 @@ class Controller:
                 # node functions do return eventually: the ones reported too early finish a little later
                 early = [i for i in done if i not in self.exited]
                 if early:
-                    threading.Timer(0.2, lambda: self._release([i for i in early if i in self.gates])).start()
+                    threading.Timer(0.05, lambda: self._release([i for i in early if i in self.gates])).start()
             self.helper = None
         self.in_wait = None
         self.log("wait_end", k=kind, s=[self.ix(i) for i in done])
